@@ -2,7 +2,7 @@
     together with the release bookkeeping (Server/Release.v) and compares what the model predicts with what
     was observed.  Executable definitions only. *)
 From Coq Require Import List ZArith String Bool Arith.
-From Thunder Require Import Lib.Json DiffMerge.Model Server.Model Server.Spec Server.Release.
+From Thunder Require Import Lib.Json DiffMerge.Model Server.Model Server.Spec Server.Release Server.Queries.
 Import ListNotations.
 Open Scope string_scope.
 Open Scope list_scope.
@@ -41,12 +41,15 @@ Definition logev_eqb (a b : logev) : bool :=
 (** Replays the labels; each [LRun] label may carry the `Previous` value the implementation's
     computation was given, which must be the model's [r_prev].  Returns the final state, or the
     position of the first label that is not enabled / whose `Previous` differs. *)
-Inductive replay_res := RDone (s : state) (rs : rstate) | RStuck (pos : nat) | RPrev (pos : nat).
+Inductive replay_res := RDone (s : state) (rs : rstate) | RStuck (pos : nat) | RPrev (pos : nat) | RQuery (pos : nat).
 
-Fixpoint replay (cfg : config) (s : state) (rs : rstate) (pos : nat) (h : list (label * option json)) : replay_res :=
+(** [toks]: one query token per label (see Server/Queries.v; 0 where it does not matter). *)
+Fixpoint replay (cfg : config) (s : state) (rs : rstate) (qs : qstate) (pos : nat)
+         (h : list (label * option json)) (toks : list nat) : replay_res :=
   match h with
   | [] => RDone s rs
   | (l, p) :: t =>
+      let tok := hd 0 toks in
       let prev_ok :=
           match l, p with
           | LRun rid _, Some pv =>
@@ -58,7 +61,11 @@ Fixpoint replay (cfg : config) (s : state) (rs : rstate) (pos : nat) (h : list (
           end in
       if prev_ok
       then match stepR cfg (s, rs) l with
-           | Some (s', rs') => replay cfg s' rs' (S pos) t
+           | Some (s', rs') =>
+               match qeffect s s' l tok qs with
+               | Some qs' => replay cfg s' rs' qs' (S pos) t (tl toks)
+               | None => RQuery pos
+               end
            | None => RStuck pos
            end
       else RPrev pos
@@ -67,6 +74,8 @@ Fixpoint replay (cfg : config) (s : state) (rs : rstate) (pos : nat) (h : list (
 Record case := mk_case {
   k_cfg : config;
   k_labels : list (label * option json);
+  k_toks : list nat;                  (* query token per label: of the message for subscribe / mutate, of the query
+                                         the computation executed for a run completion *)
   k_out : list obs_env;               (* every WriteJSON, in order *)
   k_log : list logev;                 (* every SubscriptionLogger call, in order *)
   k_ids : list nat;                   (* ids used in this case *)
@@ -82,11 +91,13 @@ Definition same_set (l1 l2 : list nat) : bool :=
 (** Component codes: 1 a label is not enabled in the model; 2 `Previous` differs; 3 envelopes differ;
     4 logger calls differ (per id); 5 merge.ts client state differs from the model's fold;
     6 pending close tasks or pending reply left at the end / live ids differ;
-    7 the resources released (Cleanup calls) differ from the model's. *)
+    7 the resources released (Cleanup calls) differ from the model's;
+    8 a computation executed a query (text, variables) other than the one its rerunner was created with. *)
 Definition check_case (c : case) : list nat :=
-  match replay (k_cfg c) init rinit 0 (k_labels c) with
+  match replay (k_cfg c) init rinit [] 0 (k_labels c) (k_toks c) with
   | RStuck _ => [1]
   | RPrev _ => [2]
+  | RQuery _ => [8]
   | RDone s rs =>
       (if all2 env_matches (out_of s) (k_out c) then [] else [3]) ++
       (if forallb (fun id => all2 logev_eqb (log_for id (log_of s)) (log_for id (k_log c))) (k_ids c)
@@ -108,7 +119,7 @@ Fixpoint mismatches_from_sparse (_ : nat) (cs : list (nat * case)) : list (nat *
 
 (** Position of the first problem of a case, for debugging a mismatch by hand. *)
 Definition where_stuck (c : case) : option nat :=
-  match replay (k_cfg c) init rinit 0 (k_labels c) with
-  | RStuck p | RPrev p => Some p
+  match replay (k_cfg c) init rinit [] 0 (k_labels c) (k_toks c) with
+  | RStuck p | RPrev p | RQuery p => Some p
   | RDone _ _ => None
   end.
